@@ -208,6 +208,27 @@ def check_seq(ctx, seq, shapes=SHAPES, share=False):
         if [(d.name, str(d.version)) for d in rd] != [(d.name, str(d.version)) for d in want] or any(a != b for a, b in zip(rd, want)):
             ctx.violation("render-deps-differ", "render()['dependencies'] in shape %s differs from the resolved list (by value)" % shape, w)
             return False
+        if shape in ("flat_list", "scattered", "tag_subclasses") and ctx.rng.random() < 0.25:
+            # the serialising string form (dependencies written after the markup) writes the RESOLVED list, once each, in order
+            import htmltools as _h
+            import json as _json
+            import re as _re
+
+            old_mode = _h.html_dependency_render_mode
+            _h.html_dependency_render_mode = "json"
+            try:
+                s_ = str(root)
+            finally:
+                _h.html_dependency_render_mode = old_mode
+            ctx.count("oracle.json_mode_resolution")
+            got_j = []
+            for m_ in _re.findall(r'<script type="application/json" data-html-dependency="">(.*?)</script>', s_, _re.S):
+                j_ = _json.loads(m_)
+                got_j.append((j_["name"], str(j_["version"])))
+            want_j = [(d.name, str(d.version)) for d in want]
+            if got_j != want_j:
+                ctx.violation("resolution-wrong-set", "str() in the JSON dependency mode serialises %r, the resolved list is %r" % (got_j[:8], want_j[:8]), w)
+                return False
         ctx.state("shapes", shape)
     # a later addition is seen by the next query (nothing is remembered from the first one)
     if deps and isinstance(root, ht.Tag):
